@@ -363,9 +363,9 @@ def run(ctx):
     kcalls = [n for n in ast.walk(ve) if isinstance(n, ast.Call) and getattr(n.func, "id", "") == "_directional"]
     ok = len(sep_calls) == 1 and len(kcalls) == 1 and sep_calls[0].args and ast.unparse(sep_calls[0].args[0]) == "direction" and len(kcalls[0].args) > 3 and ast.unparse(kcalls[0].args[3]) == "direction"
     if ok:
-        d1 = small.last_def_before(ve, "direction", sep_calls[0].lineno)
-        d2 = small.last_def_before(ve, "direction", kcalls[0].lineno)
-        norm = [n for n in ast.walk(ve) if isinstance(n, ast.Assign) and ast.unparse(n.targets[0]) == "direction" and "norms" in ast.unparse(n.value) and ast.unparse(n.value).startswith(("np.divide(direction", "direction /"))]
+        d1 = small.last_def_before(ve, "direction", sep_calls[0]._ord)
+        d2 = small.last_def_before(ve, "direction", kcalls[0]._ord)
+        norm = [n for n in ast.walk(ve) if small.divides_by(n, "direction", "norms")]
         ok = d1 is not None and d1 is d2 and len(norm) == 1 and d1 is norm[0]
         t1 = ast.unparse(sep_calls[0].args[1]) if len(sep_calls[0].args) > 1 else "?"
         t2 = ast.unparse(kcalls[0].args[4]) if len(kcalls[0].args) > 4 else "?"
